@@ -3,7 +3,14 @@
   Property theorems only (helper lemmas in Lemmas/Dummy.lean, Lemmas/DummyHeap.lean).
   Model: `Dummy.lean` (one instance: its channel objects `cs` and its state `i`).  The reference device is written
   out by hand here from the NxScope protocol (`Req`, `refChans`, `refFlag`, `refAnswer`); `Spec.wire` is the
-  hand-written frame.  The statements quantify over every state, hence over every history that leads to it.
+  hand-written frame.  The one-step statements (`serves`, `answers_conform`, `applies_exactly`, `ignores_*`) quantify
+  over every state satisfying `DevOk`, a live receive thread and the request at the head of the queue; the history
+  section (`step_conforms`, `history_conforms`, `devOk_run`, `alive_run`, `request_after_history`) CONCLUDES these
+  hypotheses over every history of well-formed requests interleaved with padding / noise / damaged requests, receive
+  steps, stream steps and reads, and shows the machine equal to the reference device (`refRun`) over the whole
+  history; `stream_alive_run` / `stream_step_in_history` do the same for the stream thread under `FitsAlong`.
+  Outside the quantifier (accepted): a CRC-valid frame that is not a request (ACK / STREAM id, common-info request
+  with a payload) ends the receive thread (`Thr.dead` in the model); only the first frame of one write is handled.
 -/
 import NxsModel.Lemmas.Dummy
 import NxsModel.Lemmas.DummyBatch
@@ -208,6 +215,63 @@ theorem single_touches_one (cs : List Chan) (c k : Nat) (v : Bool) (hk : k ≠ c
   simp only [refChans, refEns, withEns, List.getElem?_zipWith, ensOf, List.getElem?_set_ne (Ne.symm hk), List.getElem?_map]
   cases cs[k]? <;> simp
 
+/-! ### the raw bytes of set requests: any channel byte in ALL / BULK form, any non-zero byte for "enabled" -/
+
+/-- enable, ALL form `02 <any byte> <value>`: the channel byte is ignored, every non-zero value byte means enabled — the
+    device behaves as for the canonical request `enAll (x ≠ 0)` -/
+theorem serves_enable_all_raw (cs : List Chan) (i : Inst) (chb x : Byte) (z : Bytes) (rest : List Bytes) (hd : DevOk cs i)
+    (halive : i.recvThr = .alive) (hq : i.qwrite = (wire 6 [2, chb, x] ++ z) :: rest) :
+    recvStep cs i = (refChans cs (.enAll (decide (x ≠ 0))),
+      { i with qwrite := rest, qread := i.qread ++ refAck i.flags }, none) := by
+  rw [recvStep_enable cs i [2, chb, x] z rest (List.replicate cs.length (decide (x ≠ 0))) rfl (by simp) (by simp)
+    (by rw [← hd.len]; exact Requests.frameEnableDecode_all chb x cs.length (ensOf cs)) (by simp) halive hq, ack_eq]
+  simp only [refChans, refEns, ensOf, List.length_map]
+
+/-- enable, BULK form `01 <any byte> <one byte per channel>`: channel `k` is enabled iff byte `k` is non-zero -/
+theorem serves_enable_bulk_raw (cs : List Chan) (i : Inst) (chb : Byte) (bs z : Bytes) (rest : List Bytes) (hd : DevOk cs i)
+    (hl : bs.length = cs.length) (halive : i.recvThr = .alive) (hq : i.qwrite = (wire 6 (1 :: chb :: bs) ++ z) :: rest) :
+    recvStep cs i = (refChans cs (.enBulk (bs.map fun b => decide (b ≠ 0))),
+      { i with qwrite := rest, qread := i.qread ++ refAck i.flags }, none) := by
+  have hn : cs.length ≤ 255 := by rw [hd.len]; exact hd.chmax
+  rw [recvStep_enable cs i (1 :: chb :: bs) z rest (bs.map fun b => decide (b ≠ 0)) rfl (by simp; omega) (by simp)
+    (by rw [← hd.len]; exact Requests.frameEnableDecode_bulk chb bs cs.length (ensOf cs) hl) (by simpa using hl) halive hq, ack_eq]
+  simp only [refChans, refEns]
+
+/-- enable, SINGLE form `00 <channel> <value>`: any non-zero value byte enables the addressed channel -/
+theorem serves_enable_single_raw (cs : List Chan) (i : Inst) (c : Nat) (x : Byte) (z : Bytes) (rest : List Bytes)
+    (hd : DevOk cs i) (hc : c < cs.length) (halive : i.recvThr = .alive)
+    (hq : i.qwrite = (wire 6 [0, byte c, x] ++ z) :: rest) :
+    recvStep cs i = (refChans cs (.enSingle c (decide (x ≠ 0))),
+      { i with qwrite := rest, qread := i.qread ++ refAck i.flags }, none) := by
+  have hn : cs.length ≤ 255 := by rw [hd.len]; exact hd.chmax
+  have hcn : (byte c).toNat = c := by simp [byte]; omega
+  rw [recvStep_enable cs i [0, byte c, x] z rest ((ensOf cs).set c (decide (x ≠ 0))) rfl (by simp) (by simp)
+    (by
+      rw [← hd.len, Requests.frameEnableDecode_single, hcn]
+      unfold Requests.setAt
+      rw [if_pos (by simp [ensOf]; exact hc)]) (by simp [ensOf]) halive hq, ack_eq]
+  simp only [refChans, refEns]
+
+/-- divider, ALL form with any channel byte -/
+theorem serves_div_all_raw (cs : List Chan) (i : Inst) (chb x : Byte) (z : Bytes) (rest : List Bytes) (hd : DevOk cs i)
+    (halive : i.recvThr = .alive) (hq : i.qwrite = (wire 7 [2, chb, x] ++ z) :: rest) :
+    recvStep cs i = (refChans cs (.divAll x.toNat),
+      { i with qwrite := rest, qread := i.qread ++ refAck i.flags }, none) := by
+  rw [recvStep_div cs i [2, chb, x] z rest (List.replicate cs.length (x.toNat : Int)) rfl (by simp) (by simp)
+    (by rw [← hd.len]; exact Requests.frameDivDecode_all chb x cs.length (divsOf cs)) (by simp) halive hq, ack_eq]
+  simp only [refChans, refDivs, divsOf, List.length_map]
+
+/-- divider, BULK form with any channel byte -/
+theorem serves_div_bulk_raw (cs : List Chan) (i : Inst) (chb : Byte) (bs z : Bytes) (rest : List Bytes) (hd : DevOk cs i)
+    (hl : bs.length = cs.length) (halive : i.recvThr = .alive) (hq : i.qwrite = (wire 7 (1 :: chb :: bs) ++ z) :: rest) :
+    recvStep cs i = (refChans cs (.divBulk (bs.map fun b => b.toNat)),
+      { i with qwrite := rest, qread := i.qread ++ refAck i.flags }, none) := by
+  have hn : cs.length ≤ 255 := by rw [hd.len]; exact hd.chmax
+  rw [recvStep_div cs i (1 :: chb :: bs) z rest (bs.map fun b => (b.toNat : Int)) rfl (by simp; omega) (by simp)
+    (by rw [← hd.len]; exact Requests.frameDivDecode_bulk chb bs cs.length (divsOf cs) hl) (by simpa using hl) halive hq, ack_eq]
+  simp only [refChans, refDivs, List.map_map]
+  rfl
+
 /-! ### junk -/
 
 /-- **ignores_junk**: a write the NxScope receiver does not accept (C02: no start byte, bad header, inconsistent
@@ -303,6 +367,38 @@ theorem per_channel_order_batches (cs : List Chan) (n m c : Nat) (ch : Chan) (hc
   obtain ⟨h1, h2⟩ := dataGet_chan rfl cs n c ch hc
   rw [h2, (dataGet_chan rfl _ m c _ h1).2, (dataGet_chan rfl cs (n + m) c ch hc).2, chanSamples_add]
 
+/-- **per_channel_order for a function of the call index** (`get(cntr) -> (cntr,) * vdim`, kind 11): in a batch of `n`
+    rounds channel `c` yields the call indices `calls, calls + 1, …, calls + n - 1`, each once, in order — the counter
+    `DeviceChannel.data_get` passes advances by one per call -/
+theorem per_channel_order_callidx (cs : List Chan) (n c : Nat) (ch : Chan) (hc : cs[c]? = some ch) (hen : ch.en = true)
+    (hg : ch.gen = some 11) :
+    (dataGet cs n).2.filter (fun s => s.chan = c)
+      = (List.range n).map fun j => mkSample ch c (List.replicate ch.vdim (PyVal.int ((ch.calls + j : Nat) : Int))) [] := by
+  rw [(per_channel_order cs n c ch hc hen).1, outputs_callidx ch hg n, List.filterMap_map]
+  rw [← List.filterMap_eq_map]
+  rfl
+
+/-- **… and for the sparse function** (kind 12: `None` unless `cntr % 3 == 0`): the batch carries exactly the call indices
+    in `[calls, calls + n)` that are multiples of 3, in order — so the counter advances on EVERY call, also on those
+    that yield no sample (seeded C14-r3m2 advanced it only when a sample was produced: the function stalls after its
+    first `None`) -/
+theorem per_channel_order_sparse (cs : List Chan) (n c : Nat) (ch : Chan) (hc : cs[c]? = some ch) (hen : ch.en = true)
+    (hg : ch.gen = some 12) :
+    (dataGet cs n).2.filter (fun s => s.chan = c)
+      = (List.range n).filterMap fun j =>
+          if (ch.calls + j) % 3 = 0 then some (mkSample ch c (List.replicate ch.vdim (PyVal.int ((ch.calls + j : Nat) : Int))) [])
+          else none := by
+  rw [(per_channel_order cs n c ch hc hen).1, outputs_sparse ch hg n, List.filterMap_map]
+  congr 1
+  funext j
+  simp only [Function.comp]
+  split <;> rfl
+
+/-- the call counter of an enabled channel with a function attached after a batch of `n` rounds: `n` more calls -/
+theorem calls_after_batch (cs : List Chan) (n c : Nat) (ch : Chan) (k : Nat) (hc : cs[c]? = some ch) (hen : ch.en = true)
+    (hg : ch.gen = some k) : ((dataGet cs n).1[c]?).map (·.calls) = some (ch.calls + n) := by
+  rw [(per_channel_order cs n c ch hc hen).2, Option.map_some, chanIter_calls ch n k hen hg]
+
 /-- under `BatchFits`, a stream step while started queues exactly one frame, the NxScope STREAM frame whose payload
     is the encoding (C15) of the batch, or nothing when the batch has no sample; the stream thread dies only if
     the sample encoder itself raises (a value that does not fit the channel's declared type — C15's domain) -/
@@ -359,6 +455,402 @@ example :
   rw [oversize_batch_kills f17Device i rfl rfl f17_not_fits]
   exact ⟨rfl, rfl⟩
 
+/-! ### histories: the machine is the reference device over every history of requests, junk and stream steps -/
+
+/-- an item of a history on a started device -/
+inductive HOp where
+  | req (r : Req)        -- write of a well-formed request (the interface adds its write padding)
+  | junk (d : Bytes)     -- write of something the NxScope receiver does not accept: padding, noise, a damaged request
+  | recv                 -- one iteration of the device's receive thread
+  | stream               -- one iteration of the device's stream thread
+  | read                 -- `read()`
+  deriving Repr
+
+/-- the op of the machine -/
+def HOp.op : HOp → Op
+  | .req r => .write (wire r.fid r.payload)
+  | .junk d => .write d
+  | .recv => .recvStep
+  | .stream => .streamStep
+  | .read => .read
+
+/-- requests are well formed for a device with `n` channels; junk is what the receiver ignores (`ignores_padding`,
+    `ignores_noise`, `ignores_corrupted` give the three classes of the property) -/
+def HOp.WF (n wpad : Nat) : HOp → Prop
+  | .req r => r.WF n
+  | .junk d => Dispatch.recvHandle (Pad.dataAlign wpad d) = .ignored
+  | _ => True
+
+/-- one step of the REFERENCE device.  Its state: channel objects, the instance (stream flag, response queue, the
+    byte queue of writes not yet taken) and `pend`, the same queue seen by the protocol: `some r` for a request,
+    `none` for a write to be ignored.  A receive step takes the oldest write: a request is applied to exactly the
+    addressed channels (`refChans`, `refFlag`) and answered with exactly `refAnswer`; junk is dropped.  Stream steps and
+    reads are those of the machine (their content is the subject of the stream theorems below). -/
+def refStep (cs : List Chan) (i : Inst) (pend : List (Option Req)) : HOp → List Chan × Inst × List (Option Req) × Obs
+  | .req r => (cs, { i with qwrite := i.qwrite ++ [Pad.dataAlign i.wpad (wire r.fid r.payload)] }, pend ++ [some r], .none)
+  | .junk d => (cs, { i with qwrite := i.qwrite ++ [Pad.dataAlign i.wpad d] }, pend ++ [none], .none)
+  | .recv =>
+    match pend with
+    | [] => (cs, i, [], .none)
+    | none :: ps => (cs, { i with qwrite := i.qwrite.drop 1 }, ps, .none)
+    | some r :: ps =>
+      (refChans cs r, { i with qwrite := i.qwrite.drop 1, flag := refFlag i.flag r,
+                               qread := i.qread ++ refAnswer cs i.flags i.rxp r }, ps, .none)
+  | .stream => ((streamStep cs i).1, (streamStep cs i).2.1, pend, stepOutObs (streamStep cs i).2.2)
+  | .read =>
+    match i.qread with
+    | [] => (cs, i, pend, .bytes [])
+    | f :: r => (cs, { i with qread := r }, pend, .bytes f)
+
+def refRun (cs : List Chan) (i : Inst) (pend : List (Option Req)) : List HOp → List Chan × Inst × List (Option Req) × List Obs
+  | [] => (cs, i, pend, [])
+  | x :: rest =>
+    let s := refStep cs i pend x
+    let t := refRun s.1 s.2.1 s.2.2.1 rest
+    (t.1, t.2.1, t.2.2.1, s.2.2.2 :: t.2.2.2)
+
+/-- the byte queue and the protocol's view of it agree: item by item, a well-formed request followed by padding, or
+    bytes the receiver ignores -/
+inductive Pend (n : Nat) : List Bytes → List (Option Req) → Prop
+  | nil : Pend n [] []
+  | req {d ds ps} (r : Req) (z : Bytes) : r.WF n → d = wire r.fid r.payload ++ z → Pend n ds ps → Pend n (d :: ds) (some r :: ps)
+  | junk {d ds ps} : Dispatch.recvHandle d = .ignored → Pend n ds ps → Pend n (d :: ds) (none :: ps)
+
+theorem Pend.snoc_req {n : Nat} {ds : List Bytes} {ps : List (Option Req)} (h : Pend n ds ps) (r : Req) (z : Bytes)
+    (hr : r.WF n) : Pend n (ds ++ [wire r.fid r.payload ++ z]) (ps ++ [some r]) := by
+  induction h with
+  | nil => exact .req r z hr rfl .nil
+  | req r' z' h1 h2 _ ih => exact .req r' z' h1 h2 ih
+  | junk h1 _ ih => exact .junk h1 ih
+
+theorem Pend.snoc_junk {n : Nat} {ds : List Bytes} {ps : List (Option Req)} (h : Pend n ds ps) (d : Bytes)
+    (hd : Dispatch.recvHandle d = .ignored) : Pend n (ds ++ [d]) (ps ++ [none]) := by
+  induction h with
+  | nil => exact .junk hd .nil
+  | req r' z' h1 h2 _ ih => exact .req r' z' h1 h2 ih
+  | junk h1 _ ih => exact .junk h1 ih
+
+/-- the values a well-formed divider request stores are 8-bit -/
+theorem refDivs_range (cs : List Chan) (r : Req) (hc : ∀ c ∈ cs, ChanOk c) (hwf : r.WF cs.length) :
+    ∀ v ∈ refDivs (divsOf cs) r, 0 ≤ v ∧ v ≤ 255 := by
+  have hcur : ∀ v ∈ divsOf cs, 0 ≤ v ∧ v ≤ 255 := by
+    intro v hv
+    obtain ⟨c, hc', rfl⟩ := List.mem_map.mp hv
+    exact ⟨(hc c hc').div0, (hc c hc').div⟩
+  intro v hv
+  cases r with
+  | divSingle c x =>
+    obtain ⟨_, hx⟩ : c < cs.length ∧ x ≤ 255 := hwf
+    rcases List.mem_or_eq_of_mem_set hv with h | h
+    · exact hcur v h
+    · subst h; omega
+  | divAll x =>
+    have hx : x ≤ 255 := hwf
+    have := (List.mem_replicate.mp hv).2
+    subst this; omega
+  | divBulk vs =>
+    obtain ⟨_, hx⟩ : vs.length = cs.length ∧ ∀ v ∈ vs, v ≤ 255 := hwf
+    obtain ⟨x, hx', rfl⟩ := List.mem_map.mp hv
+    have := hx x hx'
+    simp only [Int.ofNat_eq_natCast]
+    omega
+  | _ => exact hcur v hv
+
+theorem refChans_length (cs : List Chan) (r : Req) (hwf : r.WF cs.length) : (refChans cs r).length = cs.length := by
+  have hel : (ensOf cs).length = cs.length := by simp [ensOf]
+  have hdl : (divsOf cs).length = cs.length := by simp [divsOf]
+  have h1 := refEns_length (ensOf cs) r (by rw [hel]; exact hwf)
+  have h2 := refDivs_length (divsOf cs) r (by rw [hdl]; exact hwf)
+  rw [hel] at h1; rw [hdl] at h2
+  cases r <;> simp only [refChans] <;> first | rfl | exact withEns_length _ _ h1 | exact withDivs_length _ _ h2
+
+/-- **DevOk is preserved by serving a request**: the description still fits the info frames -/
+theorem devOk_refChans (cs : List Chan) (i i' : Inst) (r : Req) (hd : DevOk cs i) (hwf : r.WF cs.length)
+    (h1 : i'.chmax = i.chmax) (h2 : i'.flags = i.flags) (h3 : i'.rxp = i.rxp) : DevOk (refChans cs r) i' := by
+  refine ⟨by rw [refChans_length cs r hwf, h1]; exact hd.len, by rw [h1]; exact hd.chmax, by rw [h2]; exact hd.flags,
+    by rw [h3]; exact hd.rxp, ?_⟩
+  cases r with
+  | enSingle c v => exact chanOk_withEns _ _ hd.chans
+  | enAll v => exact chanOk_withEns _ _ hd.chans
+  | enBulk vs => exact chanOk_withEns _ _ hd.chans
+  | divSingle c v => exact chanOk_withDivs _ _ hd.chans (refDivs_range cs _ hd.chans hwf)
+  | divAll v => exact chanOk_withDivs _ _ hd.chans (refDivs_range cs _ hd.chans hwf)
+  | divBulk vs => exact chanOk_withDivs _ _ hd.chans (refDivs_range cs _ hd.chans hwf)
+  | _ => exact hd.chans
+
+/-- **DevOk is preserved by a stream step** (whatever it does: nothing, a batch, a batch that ends the thread) -/
+theorem devOk_streamStep (cs : List Chan) (i : Inst) (hd : DevOk cs i) :
+    DevOk (streamStep cs i).1 (streamStep cs i).2.1 ∧ (streamStep cs i).2.1.recvThr = i.recvThr ∧
+    (streamStep cs i).2.1.qwrite = i.qwrite ∧ (streamStep cs i).2.1.wpad = i.wpad ∧ (streamStep cs i).1.length = cs.length := by
+  unfold streamStep
+  split
+  · exact ⟨hd, rfl, rfl, rfl, rfl⟩
+  · split
+    · exact ⟨hd, rfl, rfl, rfl, rfl⟩
+    · rw [produce_eq]
+      have hl := dataGet_length rfl cs i.snum
+      have hc := chanOk_dataGet rfl cs i.snum hd.chans
+      split <;>
+        exact ⟨⟨by rw [hl]; exact hd.len, hd.chmax, hd.flags, hd.rxp, hc⟩, rfl, rfl, rfl, hl⟩
+
+/-- the invariant of a history: the description fits, the receive thread lives, the queue of writes is what the
+    protocol thinks it is -/
+structure Inv (cs : List Chan) (i : Inst) (pend : List (Option Req)) : Prop where
+  dev : DevOk cs i
+  alive : i.recvThr = .alive
+  pend : Pend cs.length i.qwrite pend
+
+/-- **one step of a history**: the machine does what the reference device does, and the invariant — `DevOk`, the
+    receive thread alive, the request at the head of the queue being what was written — is preserved.  These are the
+    hypotheses of `serves` / `answers_conform` / `applies_exactly`, here CONCLUDED. -/
+theorem step_conforms (cs : List Chan) (i : Inst) (pend : List (Option Req)) (x : HOp) (hinv : Inv cs i pend)
+    (hx : x.WF cs.length i.wpad) :
+    step cs i x.op = ((refStep cs i pend x).1, (refStep cs i pend x).2.1, (refStep cs i pend x).2.2.2) ∧
+    Inv (refStep cs i pend x).1 (refStep cs i pend x).2.1 (refStep cs i pend x).2.2.1 ∧
+    (refStep cs i pend x).1.length = cs.length ∧ (refStep cs i pend x).2.1.wpad = i.wpad := by
+  obtain ⟨hd, ha, hp⟩ := hinv
+  cases x with
+  | req r =>
+    obtain ⟨k, _, _, hk⟩ := Pad.dataAlign_spec i.wpad (wire r.fid r.payload)
+    refine ⟨rfl, ⟨⟨hd.len, hd.chmax, hd.flags, hd.rxp, hd.chans⟩, ha, ?_⟩, rfl, rfl⟩
+    show Pend cs.length (i.qwrite ++ [Pad.dataAlign i.wpad (wire r.fid r.payload)]) (pend ++ [some r])
+    rw [hk]
+    exact hp.snoc_req r _ hx
+  | junk d =>
+    refine ⟨rfl, ⟨⟨hd.len, hd.chmax, hd.flags, hd.rxp, hd.chans⟩, ha, ?_⟩, rfl, rfl⟩
+    exact hp.snoc_junk _ hx
+  | recv =>
+    generalize hq : i.qwrite = q at hp
+    cases hp with
+    | nil =>
+      have hs : recvStep cs i = (cs, i, none) := by
+        unfold recvStep
+        rw [if_neg (by rw [ha]; simp), hq]
+      refine ⟨?_, ⟨hd, ha, ?_⟩, rfl, rfl⟩
+      · simp only [HOp.op, step, hs, refStep, stepOutObs]
+      · show Pend cs.length i.qwrite []
+        rw [hq]; exact .nil
+    | req r z hr hdz hrest =>
+      rename_i d ds ps
+      have hq' : i.qwrite = (wire r.fid r.payload ++ z) :: ds := by rw [hq, hdz]
+      have hs := serves cs i r z ds hd hr ha hq'
+      have hdrop : i.qwrite.drop 1 = ds := by rw [hq]; rfl
+      refine ⟨?_, ⟨?_, ha, ?_⟩, refChans_length cs r hr, rfl⟩
+      · simp only [HOp.op, step, hs, refStep, stepOutObs, hdrop]
+      · exact devOk_refChans cs i _ r hd hr rfl rfl rfl
+      · show Pend (refChans cs r).length (i.qwrite.drop 1) ps
+        rw [hdrop, refChans_length cs r hr]; exact hrest
+    | junk hj hrest =>
+      rename_i d ds ps
+      have hs := ignores_junk cs i d ds hj ha hq
+      have hdrop : i.qwrite.drop 1 = ds := by rw [hq]; rfl
+      refine ⟨?_, ⟨⟨hd.len, hd.chmax, hd.flags, hd.rxp, hd.chans⟩, ha, ?_⟩, rfl, rfl⟩
+      · simp only [HOp.op, step, hs, refStep, stepOutObs, hdrop]
+      · show Pend cs.length (i.qwrite.drop 1) ps
+        rw [hdrop]; exact hrest
+  | stream =>
+    obtain ⟨h1, h2, h3, h4, h5⟩ := devOk_streamStep cs i hd
+    refine ⟨rfl, ⟨h1, ?_, ?_⟩, h5, h4⟩
+    · show (streamStep cs i).2.1.recvThr = .alive
+      rw [h2]; exact ha
+    · show Pend (streamStep cs i).1.length (streamStep cs i).2.1.qwrite pend
+      rw [h3, h5]; exact hp
+  | read =>
+    cases hr : i.qread with
+    | nil =>
+      simp only [HOp.op, step, refStep, hr, true_and, and_true]
+      exact ⟨hd, ha, hp⟩
+    | cons f r =>
+      simp only [HOp.op, step, refStep, hr, true_and, and_true]
+      exact ⟨⟨hd.len, hd.chmax, hd.flags, hd.rxp, hd.chans⟩, ha, hp⟩
+
+/-- **history_conforms**: over every history of well-formed requests interleaved with padding / noise / damaged
+    requests, receive steps, stream steps and reads, the machine IS the reference device: same channel state, same
+    stream flag, same response queue, same observations — so every well-formed request of the history is answered, in
+    order, by exactly the conforming response(s) and applied to exactly the addressed channels (`refStep`), and the
+    invariant holds at the end (so the history can be continued). -/
+theorem history_conforms (cs : List Chan) (i : Inst) (pend : List (Option Req)) (h : List HOp) (hinv : Inv cs i pend)
+    (hwf : ∀ x ∈ h, x.WF cs.length i.wpad) :
+    run cs i (h.map HOp.op) = ((refRun cs i pend h).1, (refRun cs i pend h).2.1, (refRun cs i pend h).2.2.2) ∧
+    Inv (refRun cs i pend h).1 (refRun cs i pend h).2.1 (refRun cs i pend h).2.2.1 ∧
+    (refRun cs i pend h).1.length = cs.length ∧ (refRun cs i pend h).2.1.wpad = i.wpad := by
+  induction h generalizing cs i pend with
+  | nil => exact ⟨rfl, hinv, rfl, rfl⟩
+  | cons x rest ih =>
+    obtain ⟨h1, h2, h3, h4⟩ := step_conforms cs i pend x hinv (hwf x (by simp))
+    obtain ⟨i1, i2, i3, i4⟩ := ih _ _ _ h2 (fun y hy => by rw [h3, h4]; exact hwf y (by simp [hy]))
+    refine ⟨?_, i2, i3.trans h3, i4.trans h4⟩
+    simp only [List.map_cons, run, h1, i1, refRun]
+
+/-- a started device with nothing queued satisfies the invariant -/
+theorem Inv.start (cs : List Chan) (i : Inst) (hd : DevOk cs i) (ha : i.recvThr = .alive) (hq : i.qwrite = []) : Inv cs i [] :=
+  ⟨hd, ha, by rw [hq]; exact .nil⟩
+
+/-- **devOk_run**: the description fits the info frames after every such history -/
+theorem devOk_run (cs : List Chan) (i : Inst) (h : List HOp) (hd : DevOk cs i) (ha : i.recvThr = .alive) (hq : i.qwrite = [])
+    (hwf : ∀ x ∈ h, x.WF cs.length i.wpad) :
+    DevOk (run cs i (h.map HOp.op)).1 (run cs i (h.map HOp.op)).2.1 := by
+  obtain ⟨h1, h2, _⟩ := history_conforms cs i [] h (Inv.start cs i hd ha hq) hwf
+  rw [h1]; exact h2.dev
+
+/-- **alive_run**: the receive thread survives every such history — padding, noise and damaged requests included,
+    whatever the stream thread does (no `BatchFits` needed for this thread) -/
+theorem alive_run (cs : List Chan) (i : Inst) (h : List HOp) (hd : DevOk cs i) (ha : i.recvThr = .alive) (hq : i.qwrite = [])
+    (hwf : ∀ x ∈ h, x.WF cs.length i.wpad) :
+    (run cs i (h.map HOp.op)).2.1.recvThr = .alive := by
+  obtain ⟨h1, h2, _⟩ := history_conforms cs i [] h (Inv.start cs i hd ha hq) hwf
+  rw [h1]; exact h2.alive
+
+/-- **every request of a history is served**: after ANY such history whose writes have all been taken, a well-formed
+    request that is written and taken by the receive thread is answered by exactly the conforming response(s), appended
+    to what was still unread, and applied to exactly the addressed channels; the receive thread lives on, nothing is
+    left queued -/
+theorem request_after_history (cs : List Chan) (i : Inst) (h : List HOp) (r : Req) (hd : DevOk cs i) (ha : i.recvThr = .alive)
+    (hq : i.qwrite = []) (hwf : ∀ x ∈ h, x.WF cs.length i.wpad) (hr : r.WF cs.length)
+    (hdrain : (refRun cs i [] h).2.2.1 = []) :
+    let s := run cs i (h.map HOp.op)
+    let t := run s.1 s.2.1 [.write (wire r.fid r.payload), .recvStep]
+    t.1 = refChans s.1 r ∧ t.2.1.flag = refFlag s.2.1.flag r ∧
+    t.2.1.qread = s.2.1.qread ++ refAnswer s.1 s.2.1.flags s.2.1.rxp r ∧
+    t.2.1.recvThr = .alive ∧ t.2.1.qwrite = [] ∧ t.2.2 = [.none, .none] := by
+  obtain ⟨h1, h2, h3, h4⟩ := history_conforms cs i [] h (Inv.start cs i hd ha hq) hwf
+  intro s t
+  have hs : s = ((refRun cs i [] h).1, (refRun cs i [] h).2.1, (refRun cs i [] h).2.2.2) := h1
+  have hinv : Inv s.1 s.2.1 [] := by
+    have := h2
+    rw [hdrain] at this
+    rw [hs]; exact this
+  have hqs : s.2.1.qwrite = [] := by
+    have := hinv.pend
+    generalize s.2.1.qwrite = q at this
+    cases this; rfl
+  have hlen : s.1.length = cs.length := by rw [hs]; exact h3
+  have hr' : r.WF s.1.length := by rw [hlen]; exact hr
+  obtain ⟨g1, g2, _⟩ := history_conforms s.1 s.2.1 [] [.req r, .recv] hinv (by
+    intro x hx
+    simp only [List.mem_cons, List.not_mem_nil, or_false] at hx
+    rcases hx with rfl | rfl
+    · exact hr'
+    · trivial)
+  have ht : t = _ := g1
+  rw [ht]
+  simp only [refRun, refStep, List.nil_append, hqs, List.drop_one, List.tail_cons]
+  refine ⟨?_, ?_, ?_, ?_, ?_, ?_⟩ <;> first | rfl | trivial | exact hinv.alive
+
+/-! ### the stream thread over histories -/
+
+/-- the batch encodes and fits one frame payload -/
+def encOk : Except Err (Option Bytes) → Prop
+  | .ok (some p) => p.length ≤ 65529
+  | .ok none => True
+  | .error _ => False
+
+instance (r : Except Err (Option Bytes)) : Decidable (encOk r) := by
+  unfold encOk; split <;> infer_instance
+
+/-- while the stream is started, the batch the stream thread would build now fits one frame (`BatchFits`) and the
+    sample encoder accepts every value (each generator value fits its channel's declared type — C15's domain) -/
+def StreamFits (cs : List Chan) (i : Inst) : Prop :=
+  i.flag = true → encOk (Stream.streamDataEncode [] (dataGet cs i.snum).2)
+
+instance (cs : List Chan) (i : Inst) : Decidable (StreamFits cs i) := by unfold StreamFits; infer_instance
+
+/-- `StreamFits` at every stream step the history reaches -/
+def FitsAlong (cs : List Chan) (i : Inst) : List Op → Prop
+  | [] => True
+  | op :: rest => (op = .streamStep → StreamFits cs i) ∧ FitsAlong (step cs i op).1 (step cs i op).2.1 rest
+
+instance decFitsAlong : (cs : List Chan) → (i : Inst) → (ops : List Op) → Decidable (FitsAlong cs i ops)
+  | _, _, [] => isTrue trivial
+  | cs, i, op :: rest =>
+    have := decFitsAlong (step cs i op).1 (step cs i op).2.1 rest
+    by unfold FitsAlong; exact inferInstance
+
+theorem StreamFits.batchFits {cs : List Chan} {i : Inst} (h : StreamFits cs i) (hf : i.flag = true) : BatchFits cs i.snum := by
+  have := h hf
+  refine ⟨?_⟩
+  unfold fitsPayload
+  unfold encOk at this
+  split <;> simp_all
+
+/-- one op (any op but `stop()`) keeps the stream thread alive, provided the batch fits when the op is a stream step -/
+theorem stream_alive_step (cs : List Chan) (i : Inst) (op : Op) (hs : i.streamThr = .alive) (hop : op ≠ .stop)
+    (hf : op = .streamStep → StreamFits cs i) : (step cs i op).2.1.streamThr = .alive := by
+  cases op with
+  | write d => exact hs
+  | recvStep => show (recvStep cs i).2.1.streamThr = .alive; rw [recvStep_streamThr]; exact hs
+  | read =>
+    simp only [step]
+    split <;> exact hs
+  | start => simp [step, start, hs]
+  | stop => exact absurd rfl hop
+  | streamStep =>
+    show (streamStep cs i).2.1.streamThr = .alive
+    unfold streamStep
+    rw [if_neg (by rw [hs]; simp)]
+    split
+    · exact hs
+    · rename_i hfl
+      have hflag : i.flag = true := by
+        cases hb : i.flag with
+        | true => rfl
+        | false => simp [Gen.Dummy.streamWaitsStarted, hb] at hfl
+      have hok := hf rfl hflag
+      rw [produce_eq]
+      unfold encOk at hok
+      cases hd : Stream.streamDataEncode [] (dataGet cs i.snum).2 with
+      | error e => rw [hd] at hok; exact hok.elim
+      | ok o =>
+        cases o with
+        | none => rw [frameStreamEncode_none _ hd]; exact hs
+        | some p =>
+          rw [hd] at hok
+          rw [frameStreamEncode_some _ p hd hok]; exact hs
+
+/-- **stream_alive_run**: over every history without `stop()` — requests, junk, reads, `start()`, stream steps — the
+    stream thread stays alive as long as every batch it builds fits (`FitsAlong`: `BatchFits` and encodable values at
+    each stream step reached while started).  Without it the thread dies: `oversize_batch_kills` (finding F17). -/
+theorem stream_alive_run (cs : List Chan) (i : Inst) (ops : List Op) (hs : i.streamThr = .alive)
+    (hno : ∀ op ∈ ops, op ≠ .stop) (hf : FitsAlong cs i ops) : (run cs i ops).2.1.streamThr = .alive := by
+  induction ops generalizing cs i with
+  | nil => exact hs
+  | cons op rest ih =>
+    obtain ⟨f1, f2⟩ := hf
+    have h1 := stream_alive_step cs i op hs (hno op (by simp)) f1
+    exact ih _ _ h1 (fun o ho => hno o (by simp [ho])) f2
+
+/-- … and then every stream step taken while started queues exactly one STREAM frame carrying the whole batch (or
+    nothing when the batch is empty) — `stream_step_frame` applies at every step of the history -/
+theorem stream_step_in_history (cs : List Chan) (i : Inst) (pre : List Op) (hs : i.streamThr = .alive)
+    (hno : ∀ op ∈ pre, op ≠ .stop) (hf : FitsAlong cs i (pre ++ [.streamStep]))
+    (hflag : (run cs i pre).2.1.flag = true) :
+    let s := run cs i pre
+    streamStep s.1 s.2.1 =
+      match Stream.streamDataEncode [] (dataGet s.1 s.2.1.snum).2 with
+      | .ok (some p) => ((dataGet s.1 s.2.1.snum).1, { s.2.1 with qread := s.2.1.qread ++ [wire 1 p] }, none)
+      | .ok none => ((dataGet s.1 s.2.1.snum).1, s.2.1, none)
+      | .error e => ((dataGet s.1 s.2.1.snum).1, { s.2.1 with streamThr := .dead }, some e) := by
+  intro s
+  have hfits : FitsAlong cs i pre ∧ StreamFits s.1 s.2.1 := by
+    clear hflag hs hno
+    induction pre generalizing cs i with
+    | nil => exact ⟨trivial, hf.1 rfl⟩
+    | cons op rest ih =>
+      obtain ⟨f1, f2⟩ := hf
+      obtain ⟨g1, g2⟩ := ih _ _ f2
+      exact ⟨⟨f1, g1⟩, g2⟩
+  have halive := stream_alive_run cs i pre hs hno hfits.1
+  exact stream_step_frame s.1 s.2.1 halive hflag (hfits.2.batchFits hflag)
+
+/-- the syntactic shapes the translator reads from `intf/dummy.py` / `dev.py` and the model transcribes: constructor,
+    callbacks (value `i` of the decoded vector goes to channel `i`; channel info of `data[0]`), the stream loop (rounds
+    outside, channels in order inside, `None` results skipped), positional `channel_get`, `Device.reset` → every channel →
+    the attached function, `data_get` handing the call counter to the function and incrementing it on every call -/
+theorem source_shapes :
+    Gen.Dummy.ctorShape = true ∧ Gen.Dummy.appliesEnable = true ∧ Gen.Dummy.appliesDiv = true ∧ Gen.Dummy.startCbShape = true ∧
+    Gen.Dummy.infoCbShape = true ∧ Gen.Dummy.streamLoopShape = true ∧ Gen.Dummy.channelGetPositional = true ∧
+    Gen.Dummy.devResetShape = true ∧ Gen.Dummy.streamWaitsStarted = true ∧ Gen.Dummy.streamOnlyEnabled = true := by decide
+
 /-! ### non-vacuity -/
 
 /-- the default device answers a channel-info request for channel 1 and an enable-all request -/
@@ -376,5 +868,61 @@ example : DevOk defaultObjs (newInst (List.range 11) 3 16 100 0) :=
       decide
     obtain ⟨a, b, c', d, e, f⟩ := this c hc
     exact ⟨a, b, c', d, e, f⟩⟩
+
+/-! ### non-vacuity of the history theorems -/
+
+/-- the started default device satisfies the invariant … -/
+example : Inv defaultObjs { newInst (List.range 11) 3 16 100 16 with recvThr := .alive, streamThr := .alive } [] :=
+  Inv.start _ _ ⟨by decide, by decide, by decide, by decide, by
+    intro c hc
+    have : ∀ c ∈ defaultObjs, c.type ≤ 255 ∧ c.vdim ≤ 255 ∧ 0 ≤ c.div ∧ c.div ≤ 255 ∧ c.mlen ≤ 255 ∧ c.name.length ≤ 65524 := by
+      decide
+    obtain ⟨a, b, c', d, e, f⟩ := this c hc
+    exact ⟨a, b, c', d, e, f⟩⟩ rfl rfl
+
+/-- … and this history — enable all, 20 bytes of padding, noise without a start byte, channel info of channel 1, a start
+    request, steps and reads in between — satisfies the hypothesis of `history_conforms` on it (write padding 16) -/
+example : ∀ x ∈ [HOp.req (.enAll true), .junk (List.replicate 20 0), .recv, .junk [1, 2, 3], .recv, .recv, .read, .req (.chinfo 1), .recv,
+    .read, .req (.start true), .recv, .stream, .read, .read], x.WF 11 16 := by
+  intro x hx
+  simp only [List.mem_cons, List.not_mem_nil, or_false] at hx
+  rcases hx with rfl | rfl | rfl | rfl | rfl | rfl | rfl | rfl | rfl | rfl | rfl | rfl | rfl | rfl | rfl
+  case inr.inl =>
+    show Dispatch.recvHandle (Pad.dataAlign 16 (List.replicate 20 0)) = .ignored
+    rw [show Pad.dataAlign 16 (List.replicate 20 (0 : Byte)) = List.replicate 32 0 by decide]
+    exact C17.padding_only_ignored 32
+  case inr.inr.inr.inl => exact C02.no_sof_ignored _ (by decide)
+  case inr.inr.inr.inr.inr.inr.inr.inl => show (1 : Nat) < 11; omega
+  all_goals trivial
+
+/-- `FitsAlong` is satisfiable: a started two-channel device (triangle wave as FLOAT, sparse call-index function as INT32),
+    batches of 3 rounds, along a history with two stream steps, a read and a receive step -/
+example :
+    let cs : List Chan := [⟨true, 10, 1, 0, 0, [], some 2, 0, 1, 0⟩, ⟨true, 7, 1, 0, 0, [], some 12, 0, 1, 0⟩]
+    let i : Inst := { newInst [0, 1] 3 0 3 0 with recvThr := .alive, streamThr := .alive, flag := true }
+    FitsAlong cs i [.streamStep, .read, .recvStep, .streamStep] := by decide +kernel
+
+/-- `request_after_history`'s hypothesis "all writes taken" holds e.g. after request / junk each followed by receive steps -/
+example (cs : List Chan) (i : Inst) (r : Req) (d : Bytes) :
+    (refRun cs i [] [.req r, .recv, .junk d, .stream, .recv]).2.2.1 = [] := rfl
+
+/-- raw bytes: enable-all with channel byte 7 and value byte 0xff, divider-all with channel byte 9 — the default device
+    enables every channel, sets every divider to 5 and acknowledges both -/
+example :
+    let cs := defaultObjs
+    let i : Inst := { newInst (List.range 11) 3 16 100 0 with recvThr := .alive, qwrite := [wire 6 [2, 7, 0xff], wire 7 [2, 9, 5]] }
+    (run cs i [.recvStep, .recvStep, .read, .read]).2.2 =
+      [.none, .none, .bytes (wire 4 [0, 0, 0, 0]), .bytes (wire 4 [0, 0, 0, 0])] ∧
+    ensOf (run cs i [.recvStep, .recvStep]).1 = List.replicate 11 true ∧
+    divsOf (run cs i [.recvStep, .recvStep]).1 = List.replicate 11 5 := by decide +kernel
+
+/-- the sparse function of the call index in a batch of 7 rounds: call indices 0, 3, 6 (as INT32 samples of channel 0),
+    call counter 7 afterwards; the dense one: 0 … 6 -/
+example :
+    let sp : Chan := ⟨true, 7, 1, 0, 0, [], some 12, 0, 1, 0⟩
+    let de : Chan := ⟨true, 7, 1, 0, 0, [], some 11, 0, 1, 0⟩
+    ((dataGet [sp, de] 7).2.filter fun s => s.chan = 0).map (·.data) = [[.int 0], [.int 3], [.int 6]] ∧
+    ((dataGet [sp, de] 7).2.filter fun s => s.chan = 1).map (·.data) = [[.int 0], [.int 1], [.int 2], [.int 3], [.int 4], [.int 5], [.int 6]] ∧
+    (dataGet [sp, de] 7).1.map (·.calls) = [7, 7] := by decide +kernel
 
 end Nxs.C14
